@@ -710,6 +710,57 @@ def run_retry(e, seed, k):
             "got": None if got is None else np.asarray(got).ravel()[:6].tolist(), "expected": None if expected is None else np.asarray(expected).ravel()[:6].tolist()}
 
 
+def run_mutate(e, seed, k, how):
+    """in-place update AFTER the forward pass (C05): operand k is an intermediate W = 2 * P; out = f(.., W, ..); then W is overwritten in place
+    (how 0: W[...] = other values of its domain, 1: W *= 1.5 / through a view for how 2, 3: mg.multiply(W, 1.5, out=W)); L = <C, out>.backward():
+    P.grad and the gradients of the other operands must be those of the program without the update (out read the pre-mutation values)"""
+    reset_global_state()
+    arrays = [values(s, seed, d, j) for j, (s, d) in enumerate(zip(e.shapes, e.domains))]
+    repl = arrays[k] * 1.25 + 0.5        # (nothing reads the new values: they need not lie in the operation's domain)
+
+    def build():
+        xs = [mg.tensor(a.copy()) for a in arrays]
+        P = mg.tensor(arrays[k] / 2.0)
+        W = 2.0 * P
+        ops = list(xs)
+        ops[k] = W
+        out = e.fn(*ops)
+        return xs, P, W, out
+    xs0, P0, W0, out0 = build()
+    if not isinstance(out0, mg.Tensor) or out0.constant or out0 is W0:
+        return {"label": e.label, "family": e.family, "outcome": "identity"}
+    if out0.base is not None or np.shares_memory(out0.data, W0.data):
+        return {"label": e.label, "family": e.family, "outcome": "view"}          # a view follows the update of its base: C04's subject
+    rs = np.random.RandomState(seed + 11)
+    C = np.asarray(rs.randn(*out0.shape) if out0.shape else rs.randn(), dtype=out0.dtype) + 1.7
+    (out0 * C).sum().backward()
+    expected = [None if t.grad is None else t.grad.copy() for t in [P0] + [x for j, x in enumerate(xs0) if j != k]]
+    xs, P, W, out = build()
+    try:
+        if how == 0:
+            W[...] = repl
+        elif how == 1:
+            W *= 1.5
+        elif how == 2:
+            v = W[...]
+            v *= 1.5
+        else:
+            mg.multiply(W, 1.5, out=W)
+    except Exception as ex:
+        return {"label": e.label, "family": e.family, "outcome": "update-raised:" + type(ex).__name__}
+    try:
+        (out * C).sum().backward()
+    except Exception as ex:
+        return {"label": e.label, "family": e.family, "outcome": "backward-raised:" + type(ex).__name__, "msg": str(ex)[:100]}
+    got = [t.grad for t in [P] + [x for j, x in enumerate(xs) if j != k]]
+    for i, (g, x) in enumerate(zip(got, expected)):
+        ok = (g is None and x is None) or (g is not None and x is not None and g.shape == x.shape and np.allclose(g, x, rtol=1e-9, atol=1e-12))
+        if not ok:
+            return {"label": e.label, "family": e.family, "outcome": "wrong-gradient", "which": "the updated operand's source" if i == 0 else "another operand",
+                    "got": None if g is None else np.asarray(g).ravel()[:6].tolist(), "expected": None if x is None else np.asarray(x).ravel()[:6].tolist()}
+    return {"label": e.label, "family": e.family, "outcome": "exact"}
+
+
 def run_stale(e, seed, k):
     """C09 scenario for every operation: operand k is an intermediate W = 2 * P shared with a second graph; the second graph is
     back-propagated first (which clears W), then the loss through the operation: InvalidBackprop, or exactly the recorded gradient."""
@@ -781,6 +832,8 @@ def main():
                 out.append(run_untracked(e, t.get("seed", 0), t.get("mix", 0)))
             elif t["mode"] == "release":
                 out.append(run_release(e, t.get("seed", 0), t.get("kind", 0)))
+            elif t["mode"] == "mutate":
+                out.append(run_mutate(e, t.get("seed", 0), t.get("operand", 0) % len(e.shapes), t.get("how", 0)))
             elif t["mode"] == "retry":
                 out.append(run_retry(e, t.get("seed", 0), t.get("operand", 0) % len(e.shapes)))
             elif t["mode"] == "const":
